@@ -336,16 +336,20 @@ def preSill (c : Cfg α) (s : St α) (des : List Par) (sill : α) : Except Err (
     else .ok (s, des ++ [.nug])
   else .error .sillBounds
 
+/-- the sill to constrain to: `None`/`True` → none, `False` → the current sill, else the given number -/
+def sillValue (sill : SillArg α) (cur : α) : Option α :=
+  match sill with
+  | .none => none
+  | .current => some cur
+  | .value v => some v
+
 /-- `_pre_para` -/
 def prePara (c : Cfg α) (s0 : St α) (sel : List (Par × Sel α)) (sill : SillArg α) (anis : AnisArg α) :
     Except Err (Pre α) :=
   (preLoop c s0 none sel).bind fun (s1, vl) =>
   (match vl with | some v => setVar c s1 v | none => .ok s1).bind fun s2 =>
   let des := deselected sel
-  let sillV : Option α := match sill with
-    | .none => none
-    | .current => some (s2.var c + s2.nug)
-    | .value v => some v
+  let sillV : Option α := sillValue sill (s2.var c + s2.nug)
   (match sillV with
     | some sl => preSill c s2 des sl
     | none => .ok (s2, des)).bind fun (s3, des') =>
